@@ -25,7 +25,12 @@ BUILTINS = [
     ('single', 'x', ['a', 'f1']),
     ('keys', 'a', ['o']), ('lookup', 'x', ['o', 's']), ('spread', 'a', ['o']), ('merge', 'o', ['ao']),
     ('each', 'a', ['o', 'f2']), ('sift', 'o', ['o', 'f1']), ('type', 's', ['x']),
+    ('match', 'a', ['s', 're', 'n?']), ('contains', 'b', ['s', 're']), ('split', 'a', ['s', 're', 'n?']), ('replace', 's', ['s', 're', 's', 'n?']), ('replace', 's', ['s', 're', 'f1']),
+    ('decodeUrl', 's', ['s']), ('fromMillis', 's', ['n', 'dpic?']), ('toMillis', 'n', ['s']), ('sort', 'a', ['a', 'fcmp']), ('error', 'x', ['s']),
+    ('reduce', 'x', ['a', 'f2']), ('filter', 'a', ['ao', 'f1']), ('map', 'a', ['ao', 'f1']), ('lookup', 'x', ['ao', 's']), ('keys', 'a', ['ao']), ('zip', 'a', ['a', 'a', 'a']),
 ]
+REGEXES = ['/a/', '/b+/', '/(a)(b)?/', '/[a-c]/i', '/-/', '/,/', '/o w/', '/^/', '/$/', '/x*/', '/(l+)(o)/', '/\\d+/', '/é/']
+DPICS = ['"[Y]-[M01]-[D01]"', '"[H01]:[m01]"', '"[FNn], [D1o] [MNn]"']
 PICTURES = ['"0"', '"#,##0.00"', '"000"', '"0.0"', '"#0%"', '"00.000e0"']
 
 class Gen:
@@ -81,7 +86,8 @@ class Gen:
             if k < 0.7: return self.call('a', d)
             if k < 0.85: return self.path(d)
             if k < 0.92: return '%s[%s]' % (self.paren(self.expr('a', d - 1)), self.expr(r.choice('nb'), d - 1))
-            return '%s^(%s$)' % (self.paren(self.expr('an', d - 1)), r.choice(['', '<', '>']))
+            if k < 0.96: return '%s^(%s$)' % (self.paren(self.expr('an', d - 1)), r.choice(['', '<', '>']))
+            return '%s^(%s)' % (self.paren(self.expr('ao', d - 1)), ', '.join(r.choice(['', '<', '>']) + r.choice(['a', 'b', 'k', 'a.b', '$string(a)', 'z']) for _ in range(r.randint(1, 2))))
         if t == 'an':
             if k < 0.6: return '[%s]' % ', '.join(self.expr('n', d - 1) for _ in range(r.randint(0, 4)))
             if k < 0.8: return '[%s..%s]' % (r.choice(['0', '1', '2']), r.choice(['3', '4', '1']))
@@ -89,18 +95,28 @@ class Gen:
         if t == 'as':
             return '[%s]' % ', '.join(self.expr('s', d - 1) for _ in range(r.randint(0, 3)))
         if t == 'ao':
+            if k < 0.4: return self.path(d)
+            if k < 0.5: return r.choice(['[{"a":1,"k":"x"},{"a":2,"k":"y"},{"k":"x"}]', '[{"a":"s"},{"a":1}]', '[{"a":2,"b":1},{"a":1,"b":2},{"a":2,"b":0}]'])
             return '[%s]' % ', '.join(self.expr('o', d - 1) for _ in range(r.randint(0, 3)))
         if t == 'o':
             if k < 0.6:
                 ks = r.sample(['"k"', '"a"', '"b"', '"z"'], r.randint(0, 3))
                 return '{%s}' % ', '.join('%s: %s' % (kk, self.expr(r.choice('nsbax'), d - 1)) for kk in ks)
-            if k < 0.75: return self.call('o', d)
-            if k < 0.85: return '$'
+            if k < 0.72: return self.call('o', d)
+            if k < 0.78: return '%s{%s: %s}' % (self.paren(self.expr('ao', d - 1)), r.choice(['a', 'k', '$string(a)', '"g"', 'b']), r.choice(['$', 'a', '$count($)', 'b', '[a]']))
+            if k < 0.82: return '(%s ~> |%s|%s%s|)' % (self.expr('o', d - 1), r.choice(['$', 'a', 'k', '*', 'b']), self.expr('o', 0) if r.random() < 0.5 else '{"z": %s}' % self.expr('x', d - 1), r.choice(['', '', ', "a"', ', ["k", "z"]']))
+            if k < 0.86: return '$'
             return self.path(d)
         if t in ('f', 'f1', 'f2'):
             return self.func(t, d)
         if t == 'pic':
             return r.choice(PICTURES)
+        if t == 're':
+            return r.choice(REGEXES)
+        if t == 'dpic':
+            return r.choice(DPICS)
+        if t == 'fcmp':
+            return r.choice(['function($l,$r){$l > $r}', 'function($l,$r){$l < $r}', 'function($l,$r){$string($l) > $string($r)}', 'function($l,$r){$l.a > $r.a}'])
         # any
         return self.expr(r.choice('nsbao'), d)
 
@@ -126,6 +142,10 @@ class Gen:
         r = self.rng
         n = r.randint(1, 3)
         steps = [r.choice(self.names + ['*', '$']) if i == 0 else r.choice(self.names + ['*']) for i in range(n)]
+        if r.random() < 0.12:
+            steps[0] = r.choice(['$$', '**', '[%s, %s]' % (r.choice(self.names), r.choice(self.names)), '(%s)' % r.choice(self.names), '{"a": %s}' % r.choice(self.names)])
+        if n > 1 and r.random() < 0.1:
+            steps[-1] = r.choice(['**', '$string()', '$keys()', '(%s)' % r.choice(self.names), '{"v": $}', '[$]', '$count()'])
         p = '.'.join(steps)
         if r.random() < 0.2:
             p += '[%s]' % self.expr(r.choice('nb'), min(d - 1, 1))
@@ -165,6 +185,12 @@ class Gen:
         k = r.random()
         if k < 0.2 and t != 'f2':
             return r.choice(['$string', '$boolean', '$uppercase', '$count', '$exists'])
+        if k < 0.28 and t != 'f2':
+            return r.choice(['$substring(?, 1)', '$power(?, 2)', '$append(?, [0])', '$substringBefore(?, "-")', '($string ~> $length)', '($uppercase ~> $substring(?, 0, 2))', '$pad(?, 4, "#")', '$contains(?, "a")'])
+        if k < 0.33 and t != 'f2':
+            return r.choice(['function($x)<n:n>{$x * 2}', 'function($x)<s:s>{$x & "!"}', 'function($x)<x-:x>{$x}', 'function($x, $y)<nn?:n>{$x}', 'function($x)<a<n>:n>{$sum($x)}', 'λ($x){$x}'])
+        if k < 0.36:
+            return '($rec := function($n){$n <= 0 ? 0 : 1 + $rec($n - 1)}; $rec)'
         ps = ['p%d' % i for i in range(n)]
         saved = list(self.vars)
         self.vars += [(p, 'x') for p in ps]
